@@ -564,8 +564,10 @@ class Spawner:
     """Scheduler action that creates further assets the first time it runs - i.e. during the scheduler's start-up
     round, which for a pre-created scheduler happens INSIDE the initialisation pass of the first simulate()."""
 
-    def __init__(self, rng, out):
+    def __init__(self, rng, out, depth=None, level=1):
         self.rng, self.out, self.done = rng, out, False
+        self.depth = depth if depth is not None else rng.choice([1, 1, 2, 3])
+        self.level = level
 
     def __call__(self, scheduler, obj, time, state):
         if self.done:
@@ -573,6 +575,13 @@ class Spawner:
         self.done = True
         from simprocesd.model.factory_floor import ActionScheduler, PartHandler, Maintainer
         from simprocesd.model.sensors import PeriodicSensor, AttributeProbe
+        if self.level < self.depth:
+            # one level deeper: the assets under test are created by the start-up action of a scheduler that was
+            # itself created by a start-up action
+            nxt = ActionScheduler([(1, 'on'), (1, 'off')], name=f'spawner_level_{self.level + 1}')
+            nxt.register_object(nxt, Spawner(self.rng, self.out, self.depth, self.level + 1))
+            self.out.append(nxt)
+            return
         self.out.append(ActionScheduler([(0.5, 'x'), (0.75, 'y')], name='spawned_scheduler'))
         self.out.append(PartHandler(name='spawned_handler', cycle_time=0.5))
         self.out.append(PeriodicSensor(0.5, [AttributeProbe('name', obj)], name='spawned_sensor'))
